@@ -4,6 +4,8 @@ mod conc;
 mod crash;
 mod config;
 mod crypto;
+mod httpc;
+mod httpfront;
 mod live;
 mod monitors;
 mod outage;
@@ -80,6 +82,10 @@ fn main() {
         "plugin-explore" => {
             pexplore::run(rest.first().map(|s| s.as_str()).unwrap_or("basic"));
             return;
+        }
+        "http" => {
+            httpc::run(seed, thorough, &mut rep);
+            rep.finish("tower histories driven through the real HTTP API (JSON over TCP -> warp router -> gRPC -> InternalAPI; every request and reply of the four endpoints serialised and parsed for real), interleaved with requests outside the client's repertoire in whatever state the history has reached: single-fault mutations of valid bodies (missing / retyped / odd-hex / bad-hex / empty / wrong-size / out-of-range / duplicate field, non-JSON, empty, non-object bodies, a 33-byte non-key), oversized bodies, wrong methods, unknown paths, missing Content-Length, ping, and unstructured bytes; (status, error code) compared with the model, tower dump compared before/after every refused request", false);
         }
         "plugin" => {
             pscen::run(seed, thorough, &mut rep);
